@@ -111,6 +111,20 @@ pub const SPEND_POSITIONS: &[&str] = &[
     "r2q1rk1/ppp2ppp/2n1bn2/2bpp3/4P3/2PP1NP1/PP1N1PBP/R1BQ1RK1 w - - 0 9",
     "2kr3r/ppp2ppp/2n1b3/2b1P3/5Bn1/2N2N2/PPP1B1PP/R4RK1 w - - 0 12",
     "8/5pk1/6p1/R7/5P2/6P1/r4K2/8 w - - 0 40",
+    // positions with mating attacks and hanging pieces (the FENs of the repository's mate puzzles)
+    "1k1r4/pp1q1B1p/3bQp2/2p2r2/P6P/2BnP3/1P6/5RKR b - - 0 1",
+    "1k2r3/pP3pp1/8/3P1B1p/5q2/N1P2b2/PP3Pp1/R5K1 b - - 0 1",
+    "3r1r2/4k3/R7/3Q4/8/8/8/6K1 w - - 0 1",
+    "r3k3/p1R2Qp1/2pq4/4p3/2P4P/3BP3/P4P1P/5bK1 b q - 0 1",
+    "rR6/5k2/2p3q1/4Qpb1/2PB1Pb1/4P3/r5R1/6K1 w - - 0 1",
+    "rn3rk1/p5pp/2p5/3Ppb2/2q5/1Q6/PPPB2PP/R3K1NR b KQ - 0 1",
+    "4r1k1/5ppp/8/7r/1n6/8/R4PPP/3Q2K1 w - - 0 1",
+    "r5k1/5ppp/8/8/8/8/1q3PPP/R5K1 w - - 0 1",
+    "rnbqkbnr/pppppppp/8/8/8/8/PPPPPPPP/RNBQKBNR w KQkq - 0 1",
+    "rnbqkbnr/pppp1ppp/8/4p3/4P3/8/PPPP1PPP/RNBQKBNR w KQkq - 0 2",
+    "r1bqkbnr/pppp1ppp/2n5/4p3/4P3/5N2/PPPP1PPP/RNBQKB1R w KQkq - 2 3",
+    "8/2p5/3p4/KP5r/1R3p1k/8/4P1P1/8 w - - 0 1",
+    "8/8/4k3/8/8/4K3/4P3/8 w - - 0 1",
 ];
 
 /// Second budget of a pair of go commands on a fresh engine (dry run); None after a violation.
@@ -544,11 +558,17 @@ pub fn run(tier: &str, seed: u64, out: &str) {
     }
     let mut sunits: Vec<(usize, u64, u64)> = Vec::new();
     for pi in 0..SPEND_POSITIONS.len() {
-        for t in [600u64, 8000, 60_000, 400_000] {
-            for inc in [0, t / 2, t, 3 * t] {
+        // with an increment of the whole clock the plan is half the clock (the cap binds); many
+        // clock values, because which iteration the deadline interrupts decides what the search does
+        for t in [600u64, 1500, 4000, 8000, 16_000, 30_000, 60_000, 120_000, 250_000, 400_000] {
+            for inc in [0, t] {
                 sunits.push((pi, t, inc));
             }
         }
+        // one long think per position (plan: 1.5 / 4 million nodes, depth 6-8): late iterations are
+        // where a search changes its mind about move and score
+        sunits.push((pi, 3_000_000, 3_000_000));
+        sunits.push((pi, 8_000_000, 8_000_000));
     }
     let spent: Vec<(u64, u64)> = par_map_init(
         &sunits,
@@ -624,7 +644,7 @@ pub fn run(tier: &str, seed: u64, out: &str) {
         .set("movestogo", J::obj().set("go_lines", mn).set("rule", "movestogo N (N in 0,1,2,10,40) in each of the five slots around the four clock pairs, three pair orders, own time over the 19 grid values, own increment over the 6 grid values + time/2, time, 3*time, three opponent clocks; the budget must fit and must not change with the opponent's clock (lines with a different layout or N are not compared)"))
         .set("session_stages", J::obj().set("go_lines", sn).set("rule", "the same go line as the very first go of a fresh engine, repeated, as the first go after ucinewgame, and after a real depth-1 search; fit and independence from the opponent's clock per stage"))
         .set("pairs_of_go_commands", J::obj().set("pairs", pn).set("rule", "two clock-based go commands in one game (no ucinewgame between): own clock of each over 0, 1, 100, 3000, 60000, 303000, 3600000 ms x increment 0, 1000, 60000, both sides to move, three opponent-clock variants; the second budget must fit its clock and be the same for all opponent variants"))
-        .set("budget_as_spent", J::obj().set("real_go_commands", spn).set("positions", SPEND_POSITIONS.len()).set("largest_share_of_the_clock_spent_permille", sp_max).set("rule", "real go (not dry run) under the node clock on middlegame positions, own clock 600 / 8000 / 60000 / 400000 ms x increment 0, time/2, time, 3*time: virtual time elapsed when the answer comes (nodes visited) must be below the mover's clock (+ the C07 allowance of 2048 nodes)"))
+        .set("budget_as_spent", J::obj().set("real_go_commands", spn).set("positions", SPEND_POSITIONS.len()).set("largest_share_of_the_clock_spent_permille", sp_max).set("rule", "real go (not dry run) under the node clock on middlegame positions, own clock 600 .. 400000 ms in 10 steps x increment 0 or the whole clock, plus 3 000 000 and 8 000 000 ms with an increment of the whole clock (searches of 1.5 and 4 million nodes): virtual time elapsed when the answer comes (nodes visited) must be below the mover's clock (+ the C07 allowance of 2048 nodes)"))
         .set("exhaustive", true)
         .set("samples", samples);
     rep.finish(
